@@ -5,6 +5,7 @@
 From Coq Require Import ZArith List Bool.
 Require Import V.Lib.Val V.Lib.Result V.Dex.LebModel V.Misc.TermModel V.Misc.TermProofs V.Dex.StringsModel.
 Require V.Axml.AxmlModel V.Axml.AxmlTerm V.Axml.ArscTableModel V.Axml.ArscTableTerm.
+Require V.Dex.ClassDataModel V.Dex.EncodedValueModel V.Dex.DexTerm.
 Import ListNotations.
 Open Scope Z_scope.
 
@@ -51,3 +52,19 @@ Example C35_nonvacuous :
   debug_info [1; 255; 255; 255; 255; 15; 3; 4; 5] = Err StructError /\
   hidden_api [255; 255; 255; 255; 0; 0; 0; 0; 0; 0; 0; 0; 7] = Err StructError.
 Proof. repeat split; vm_compute; reflexivity. Qed.
+
+(* more loops of the DEX parser (models of C04 and C05) *)
+(* an encoded value - arrays and annotations nested to any depth, each announcing any number of elements - and the array of
+   the static values of a class: the reader returns or raises within (bytes + 1) levels of nesting *)
+Theorem C35_encoded_values_end : forall bs,
+  EncodedValueModel.parse_value (S (length bs)) bs <> Err OutOfFuel /\ EncodedValueModel.parse_array (S (length bs)) bs <> Err OutOfFuel.
+Proof. exact (fun bs => conj (DexTerm.parse_value_ends bs) (DexTerm.parse_array_ends bs)). Qed.
+Print Assumptions C35_encoded_values_end.
+(* the field and method lists of a class_data_item run on as many passes as there are bytes left; an element takes at least
+   two bytes, so whatever count the item announces (2^32 - 1 included) the amount of fuel is never what ends the loop: any
+   two amounts that are at least the number of bytes left give the same result *)
+Theorem C35_class_data_loops_end : forall f1 f2 cnt prev bs, (length bs <= f1)%nat -> (length bs <= f2)%nat ->
+  ClassDataModel.read_fields f1 cnt prev bs = ClassDataModel.read_fields f2 cnt prev bs /\
+  ClassDataModel.read_methods f1 cnt prev bs = ClassDataModel.read_methods f2 cnt prev bs.
+Proof. exact (fun f1 f2 cnt prev bs H1 H2 => conj (DexTerm.read_fields_fuel f1 f2 cnt prev bs H1 H2) (DexTerm.read_methods_fuel f1 f2 cnt prev bs H1 H2)). Qed.
+Print Assumptions C35_class_data_loops_end.
